@@ -87,6 +87,7 @@ type Schedule struct {
 	Policy   string `json:"policy"` // rr | random | pct | explicit | serial
 	Seed     uint64 `json:"seed,omitempty"`
 	Depth    int    `json:"depth,omitempty"`    // pct: number of priority change points
+	Steps    int    `json:"steps,omitempty"`    // pct: expected number of scheduling steps (range of the change points)
 	EntryPct int    `json:"entry_pct,omitempty"` // percentage of function entries that are extra yield points
 	LoopPct  int    `json:"loop_pct,omitempty"`  // per-mille of loop iterations that are extra yield points
 	Explicit []int  `json:"explicit,omitempty"` // run-length encoded: task, count, task, count, ...
